@@ -16,7 +16,7 @@ RULE = ('seeded state trees (general stratum: all shapes; deep stratum: chains t
 ASSUMPTIONS = ['no schedule, clock or fault dimension: claimed as seeded program search with an in-run reference-model oracle']
 PROBES = []
 PLAN = {
-  'quick': {'strata': {'general': 6000, 'deep': 4000}, 'wall_s': 90, 'chunk': 200, 'min_conclusive': 1000},
+  'quick': {'strata': {'general': 6000, 'deep': 4000}, 'wall_s': 300, 'chunk': 200, 'min_conclusive': 1000},
   'thorough': {'strata': {'general': 200000, 'deep': 150000}, 'wall_s': 900, 'chunk': 500, 'min_conclusive': 10000},
 }
 ORACLES = [co.check_start]
